@@ -126,7 +126,7 @@ def main(c):
     # 4. hostile argument vectors for the command-line parser
     gexe = c18.build(c)
     toks = ["-", "--", "---", "-=", "--=", "=", "-a=", "--foo=", "--foo==", "-\xff", "--\x01", "-" + "a" * 200, "--" + "f" * 300, "--foo=" + "v" * 500, "", " ", "-f", "--b"]
-    toks += list(c18.TOKENS)      # (packs such as -bxq: a parse abandoned inside a pack must not leave a pointer into the freed vector)
+    toks += list(c18.TOKENS) + list(c18.HIGH)      # (packs such as -bxq: a parse abandoned inside a pack must not leave a pointer into the freed vector)
     glines = [c18.line(rnd.choice([1, 2, 3]), [rnd.choice(toks) for _ in range(rnd.randint(0, 10))], rnd.choice([-1, -1, 0, 1, 2, 3])) for _ in range(c.pick(3000, 40000))]
     vlib.conformance(c, gexe, c18.chunk_programs(glines, rnd), SD, "GetoptTrace", "GetoptTrace.cfg", "argv", procs=8, shards=8, nontrivial=lambda ex: len(ex) > 1)
     c.cov["rule"] = ("hostile inputs: every string of length <= 4/5 over 13 JSON structure characters, every bracketed / Unix-path string of length <= 5/6 over 8 address "
